@@ -3,10 +3,10 @@
 Applies each patch to /repo, runs the frozen binary on all properties, reverts. Writes /verif/seeded/round2_frozen.json"""
 import json,glob,subprocess,sys,re,os
 frozen=sys.argv[1]
-out_path='/verif/seeded/round2_frozen.json'
+out_path=sys.argv[3] if len(sys.argv)>3 else '/verif/seeded/round2_frozen.json'
 res=json.load(open(out_path)) if os.path.exists(out_path) else {}
-for d in sorted(glob.glob('/tmp/seedout2/C*/[ab]')):
-    seed=d[len('/tmp/seedout2/'):]
+for d in sorted(glob.glob((sys.argv[2] if len(sys.argv)>2 else '/tmp/seedout2')+'/C*/[ab]')):
+    seed='/'.join(d.split('/')[-2:])
     if seed in res or not os.path.exists(d+'/patch.diff') or not os.path.exists(d+'/NOTES.md'): continue
     if subprocess.run(['git','-C','/repo','status','--porcelain'],capture_output=True,text=True).stdout.strip(): sys.exit('/repo not clean')
     if subprocess.run(['git','-C','/repo','apply',d+'/patch.diff']).returncode!=0: res[seed]={'error':'patch does not apply'}; continue
